@@ -210,7 +210,7 @@ func runC04(r *vk.Run) {
 	}
 
 	// all completion orders, N = 0..5
-	r.Phase("orders", r.N(16, 200), func(c *vk.Case) {
+	r.Phase("orders", r.N(16, 2500), func(c *vk.Case) {
 		for n := 0; n <= 5; n++ {
 			inv := genMergeInventory(c.Rng, n, 6)
 			ref := ""
@@ -241,7 +241,7 @@ func runC04(r *vk.Run) {
 		}
 	})
 
-	r.Phase("sampled", r.N(6, 80), func(c *vk.Case) {
+	r.Phase("sampled", r.N(6, 1200), func(c *vk.Case) {
 		n := c.Rng.Range(6, 8)
 		inv := genMergeInventory(c.Rng, n, 8)
 		ref := ""
@@ -252,7 +252,7 @@ func runC04(r *vk.Run) {
 		}
 	})
 
-	r.Phase("stress", r.N(20, 400), func(c *vk.Case) {
+	r.Phase("stress", r.N(20, 3000), func(c *vk.Case) {
 		inv := genMergeInventory(c.Rng, 64, 12)
 		ref := ""
 		for k := 0; k < 3; k++ {
